@@ -715,6 +715,15 @@ func (s *storage) append(br blob.SizedRef, r io.Reader) error {
 	// below must seek and truncate the file the blob was written to.
 	err = s.index.Set(br.Ref.String(), blobMeta{packIdx, offset, br.Size}.String())
 	if err != nil {
+		// The Set may have taken effect although it reported an error
+		// (e.g. the acknowledgement of a remote index got lost). Make
+		// sure no row points at the data before discarding the data. If
+		// that can't be ensured, keep the data: a record without a row
+		// is harmless, a row without its data is not.
+		if delErr := s.index.Delete(br.Ref.String()); delErr != nil {
+			log.Printf("ERROR removing index row after index error, keeping the data: %v", delErr)
+			return err
+		}
 		if _, seekErr := s.writer.Seek(origOffset, io.SeekStart); seekErr != nil {
 			log.Printf("ERROR seeking back to the original offset: %v", seekErr)
 		} else if truncErr := s.writer.Truncate(origOffset); truncErr != nil {
